@@ -53,13 +53,23 @@ class Interp:
             self.ctx.assume(f)
         v.origin = ("field", ref.t, owner, fname, ty)
         if isinstance(ty, TRef):
+            self.ref_wf(v.t)
             self.note_ref(v.t)
+        elif isinstance(ty, TOpt) and isinstance(ty.inner, TRef):
+            self.ctx.assume(z3.Implies(z3.Not(sym.opt_is_none(v)), self.ref_wf_term(sym.opt_val(v).t)))
         return v
 
     def write_field(self, ref: V, fname, val: V):
         owner, ty = self.field(ref.ty.cls, fname)
         val = sym.coerce(val, ty)
         self.heap.write(owner, fname, ty, ref.t, val.t)
+
+    def ref_wf_term(self, t):
+        """a reference read from the heap is a pre-existing object (>= 0) or one of the objects created on this path"""
+        return z3.Or(t >= 0, *[t == n for n in getattr(self, "new_refs", [])])
+
+    def ref_wf(self, t):
+        self.ctx.assume(self.ref_wf_term(t))
 
     def note_ref(self, t):
         for r in self.refs:
@@ -73,6 +83,11 @@ class Interp:
             self.ctx.assume(r != o)
         self.ctx.assume(r < 0)  # pre-existing objects are >= 0 (assumed on every initial ref)
         self.refs.append(r)
+        if not hasattr(self, "new_refs"):
+            self.new_refs = []
+        for o in self.new_refs:
+            self.ctx.assume(r != o)
+        self.new_refs.append(r)
         return V(TRef(clsname), r)
 
     def fail(self, cond_ok, exc, what, node=None):
@@ -614,6 +629,8 @@ class Interp:
             v = V(ty.elem, z3.Select(sym.list_arr(base), i))
             for f in sym.wf(v):
                 self.ctx.assume(f)
+            if isinstance(ty.elem, TRef) and not self.spec:
+                self.ref_wf(v.t)
             return v
         if ty == TBytes:
             n = sym.bytes_len(base)
@@ -629,6 +646,8 @@ class Interp:
             for f in sym.wf(v):
                 self.ctx.assume(f)
             if isinstance(ty.v, TRef):
+                if not self.spec:
+                    self.ref_wf(v.t)
                 self.note_ref(v.t)
             return v
         if isinstance(ty, TArr):
